@@ -41,7 +41,10 @@ theorem C04_cursor_terminates (it : It) : it.measure < totalChars it.argv := mea
     maxLength/pattern; cardinalities; constraints requires/excludes, all-of/any-of/one-of, differ/
     disjoint; handler flags: abbreviations on/off, argument file, environment variable.
     NOT in the fragment (no statement here, covered only by the sanitised correspondence runs as far
-    as the generators reach them): sub-groups, bracket handlers, inversion support, value mode
+    as the generators reach them): bracket handlers, inversion support, `Handler::addArgumentFile`
+    (`--arg-file`: reads a file from inside the argv loop), nested sub-groups (sub-group arguments of
+    depth 2 ARE covered: `C04_subgroup_eval_safe` in Props/C04s.lean, about `evalArgumentsT`, which is
+    what the driver runs; this theorem reaches the tie through `C04_subgroup_conservative`), value mode
     `command` (the only caller of `isSingleArg()`/`argsAsString()`: their reads are
     `C04_single_arg_read`, `C04_args_as_string_*` below, on the cursor alone), callables, formats,
     usage/help flags, other destination types.
@@ -109,7 +112,13 @@ theorem C04_args_as_string_head_last (it : It) (hb : it.isSingleArg = .ok true)
 
 /-- `argc = 0` is OUTSIDE every theorem above, and the code is not safe there: the iterator
     constructor evaluates `::strlen( mpArgV[ mArgC - 1])`, i.e. reads `argv[-1]` (the model answers
-    `oob`).  Not exercised by the harness (the sanitizer would end the process); see the design note. -/
+    `oob`).  Known finding `argc0-reads-outside-argv` (known_findings.d/progargs.json), replayed by
+    every run: op `pa argc0` evaluates `evalArguments( 0, { nullptr })` in a fork()ed child of the
+    harness, ASan reports a heap-buffer-overflow.  On the real code the FIRST read outside argv is
+    `::strlen( mpArgV[ 1])` in `begin()` (with `mArgC == 0` the constructor's test
+    `asEnd || mArgC == 1` fails: else branch); `argv[-1]` is the read of `end()` that follows when
+    `argv[1]` happens to be readable.  The model's `It.begin` sends `argc ≤ 1` to `mkEnd` and so names
+    the second read; both are outside argv.  Reachable through `ArgString2Array( "")`. -/
 theorem C04_argc0_reads_before_argv : ∃ s, It.begin [] = .oob s := ⟨_, rfl⟩
 
 /-- Key specifications (typed long keys go through the `ArgumentKey` string constructor): for every
